@@ -66,6 +66,12 @@ func (f *FnVC) call(st *State, instr ssa.Instruction, c *ssa.CallCommon, pos tok
 				bargs = append(bargs, f.get(a))
 			}
 			site := f.noteSite(st, c, b.Name(), bargs, Val{}, pos)
+			if len(c.Args) > 0 {
+				// builtins applied to a struct field (delete(p.m, k), len(p.m), append(p.s, ...)) can be selected by field
+				if fnm := sourceFieldName(c.Args[0]); fnm != "" {
+					f.noteSiteRaw(st, b.Name()+":"+fnm, bargs, pos)
+				}
+			}
 			res := f.builtin(st, b, c, rt, pos)
 			if site != nil {
 				site.res = res
@@ -546,7 +552,9 @@ func (f *FnVC) builtin(st *State, b *ssa.Builtin, c *ssa.CallCommon, rt types.Ty
 		case SRef:
 			if mt, ok := unalias(a.Typ).Underlying().(*types.Map); ok {
 				f.guardedObjCheck(st, a, false, pos)
-				return Val{T: ite(eq(a.T, Term{"0", SRef}), u64(0), f.mapLen(st, a.T, mt)), Typ: rt}
+				ml := f.SC.Define("maplen", ite(eq(a.T, Term{"0", SRef}), u64(0), f.mapLen(st, a.T, mt)))
+				f.assume(st, app("bvule", SBool, ml, u64(1<<56))) // sizes are bounded by memory
+				return Val{T: ml, Typ: rt}
 			}
 		}
 		if at, ok := unalias(a.Typ).Underlying().(*types.Array); ok {
@@ -642,7 +650,7 @@ func (f *FnVC) appendOp(st *State, args []Val, rt types.Type) Val {
 	newCap := f.SC.Declare("appcap", BV(64))
 	f.assume(st, and(app("bvuge", SBool, newCap, newLen), app("bvule", SBool, newCap, u64(1<<56))))
 	ref := ite(fits, app("lref", SRef, s.T), fresh)
-	off := ite(fits, app("loff", BV(64), s.T), u64(0))
+	off := f.SC.Define("appoff", ite(fits, app("loff", BV(64), s.T), u64(0)))
 	cp := ite(fits, app("lcap", BV(64), s.T), newCap)
 	res := f.SC.Define("app", app("mkslice", SSlice, ref, off, newLen, cp))
 	// contents: new backing array object (for ref) agrees with old on [0,n) and with src on [n, n+m)
